@@ -67,6 +67,7 @@ func runC15(w *core.World, r *core.Report) {
 	r.Rule("R6", "the integer decoder rejects a length byte above 4")
 	r.Rule("R7", "bytecode-supplied flag indices are range-checked before State.GetFlag/MatchFlag/SetFlag/ResetFlag")
 	r.Rule("R8", "all nil-error paths of a Parse* function decode the same argument sequence")
+	r.Rule("R13", "the decoders write no package-level state (decoding is a pure function of the bytes; no crash by concurrent decoding)")
 	r.Rule("R12", "the flag accessors' range check is sound: State.BitSize and the flag bytes are set together by the constructor only (C08 R7 invariant)")
 	r.Rule("R11", "a call in package vm through a function value loaded from a table is behind a non-nil test of that value")
 	r.Rule("R10", "ParseAll reports success only behind len(remaining) == 0")
@@ -428,6 +429,7 @@ func runC15(w *core.World, r *core.Report) {
 	checkParseAllEndsAtEmpty(w, r, "R10")
 	checkTableCallsNilChecked(w, r, "R11")
 	checkFlagSizeRelation(w, r, "R12")
+	checkDecodersWriteNoGlobals(w, r, "R13")
 }
 
 func describeSite(s core.BoundsSite) string {
